@@ -15,16 +15,7 @@ Theorem C37_roundtrip : forall cipher pw nonce msg,
           /\ length ct = (12 + length msg + 16)%nat
           /\ firstn 12 ct = nonce
           /\ decrypt cipher pw ct = Ok msg.
-Proof.
-  intros cipher pw nonce msg Hn Hm.
-  exists (nonce ++ seal_body (cipher (key_of pw)) nonce msg).
-  pose proof (encrypt_ok cipher pw nonce msg Hn Hm) as H.
-  repeat split.
-  - exact H.
-  - exact (encrypt_length cipher _ _ _ _ H).
-  - exact (proj1 (proj2 (split_nonce cipher nonce _ Hn))).
-  - exact (decrypt_encrypt cipher _ _ _ _ H).
-Qed.
+Proof. exact roundtrip_full. Qed.
 Print Assumptions C37_roundtrip.
 
 (* Decrypt never crashes (and the model needs no fuel), on any byte string at all. *)
@@ -71,12 +62,84 @@ Theorem C37_key_roundtrip : forall cipher s pw nonce k,
   valid_key s k = true -> length nonce = 12%nat ->
   exists ct, encrypt_private_key cipher pw nonce k = Ok ct
           /\ decrypt_private_key cipher pw ct s = Ok k.
-Proof.
-  intros cipher s pw nonce k Hv Hn.
-  pose proof (encrypt_ok cipher pw nonce k Hn (valid_key_short cipher s k Hv)) as H.
-  eexists. split; [exact H|]. exact (key_roundtrip cipher s pw nonce k _ Hv H).
-Qed.
+Proof. exact key_roundtrip_full. Qed.
 Print Assumptions C37_key_roundtrip.
+
+(* The exact acceptance condition of Decrypt on inputs of at least nonce + tag bytes: the last
+   16 bytes must be the tag (under the password-derived key and the nonce the input starts with)
+   of the bytes in between; then the CTR decryption of those is returned.  Every modification of
+   a stored ciphertext - bit flips in nonce or body, truncation to 28 bytes or more, appended
+   bytes - is therefore accepted exactly when it produces such a tag collision. *)
+Theorem C37_decrypt_spec : forall cipher pw data,
+  (28 <= length data)%nat -> N.of_nat (length data) <= max_plain + 28 ->
+  decrypt cipher pw data =
+    let K := cipher (key_of pw) in
+    let nonce := firstn 12 data in
+    let c := firstn (length data - 28) (skipn 12 data) in
+    if bytes_eqb (tag K nonce c) (skipn (length data - 16) data) then Ok (ctr K nonce c) else Err 1.
+Proof. exact decrypt_spec. Qed.
+Print Assumptions C37_decrypt_spec.
+
+Theorem C37_oversize_input : forall cipher pw data,
+  max_plain + 28 < N.of_nat (length data) -> decrypt cipher pw data = Err 1.
+Proof. exact decrypt_oversize. Qed.
+Print Assumptions C37_oversize_input.
+
+(* Decrypting a stored ciphertext with another password: accepted exactly when the GHASH tag of
+   the stored body under the other password's key collides with the stored tag; otherwise the
+   error of gcm.Open.  (That such a collision does not occur for AES is the cryptographic
+   assumption; it is sampled by the correspondence check, not proved.) *)
+Theorem C37_other_password : forall cipher pw pw' nonce msg ct,
+  encrypt cipher pw nonce msg = Ok ct ->
+  decrypt cipher pw' ct =
+    let c := ctr (cipher (key_of pw)) nonce msg in
+    if bytes_eqb (tag (cipher (key_of pw')) nonce c) (tag (cipher (key_of pw)) nonce c)
+    then Ok (ctr (cipher (key_of pw')) nonce c) else Err 1.
+Proof. exact decrypt_other_password. Qed.
+Print Assumptions C37_other_password.
+
+(* DecryptPrivateKey (Decrypt, then helpers.go:DecodePrivateKey of the scheme) never crashes:
+   any bytes, any password, any scheme.  Needs fixes/C37-secp256k1-decode-invalid-scalar.patch
+   (see C37_key_decode_prefix_refuted). *)
+Theorem C37_key_total : forall cipher pw data s,
+  decrypt_private_key cipher pw data s <> Panic /\ decrypt_private_key cipher pw data s <> OutOfFuel.
+Proof. exact decrypt_private_key_total. Qed.
+Print Assumptions C37_key_total.
+
+(* Never a different key: whatever key DecryptPrivateKey returns for whatever input, the input is
+   byte for byte the EncryptPrivateKey output for exactly that key, and the key is a key of the
+   scheme. *)
+Theorem C37_key_accept_only_genuine : forall cipher pw data s k,
+  decrypt_private_key cipher pw data s = Ok k ->
+  valid_key s k = true /\ encrypt_private_key cipher pw (firstn 12 data) k = Ok data.
+Proof. exact decrypt_private_key_genuine. Qed.
+Print Assumptions C37_key_accept_only_genuine.
+
+(* A genuine ciphertext, under the right password, of bytes that are not the encoding of a key
+   of the scheme (wrong length; secp256k1 scalar 0 or >= n) is an error. *)
+Theorem C37_non_key_refused : forall cipher s pw nonce raw ct,
+  valid_key s raw = false -> encrypt cipher pw nonce raw = Ok ct ->
+  exists c, decrypt_private_key cipher pw ct s = Err c.
+Proof. exact non_key_refused. Qed.
+Print Assumptions C37_non_key_refused.
+
+(* Before the repair secp256k1.PrivateKey.Decode dereferenced the nil key that go-ethereum's
+   ToECDSAUnsafe returns for the scalars 0 and >= n: DecryptPrivateKey crashed on the genuine
+   ciphertext of 32 zero bytes (every password, every nonce).  The unchecked decoder crashes
+   exactly on 32-byte secp256k1 inputs with such a scalar and agrees with the repaired one
+   everywhere else. *)
+Theorem C37_key_decode_prefix_refuted : forall cipher pw nonce, length nonce = 12%nat ->
+  exists ct, encrypt cipher pw nonce (zeros 32) = Ok ct /\
+             decrypt_private_key_unchecked cipher pw ct Secp256k1 = Panic.
+Proof. exact decrypt_private_key_unchecked_panics. Qed.
+Print Assumptions C37_key_decode_prefix_refuted.
+
+Theorem C37_key_decode_prefix_agrees : forall s b,
+  (decode_private_key_prefix s b = Panic <->
+     s = Secp256k1 /\ length b = 32%nat /\ secp_scalar_ok (be_val b) = false)
+  /\ (decode_private_key_prefix s b <> Panic -> decode_private_key_prefix s b = decode_private_key s b).
+Proof. intros s b. split; [exact (decode_prefix_panic_iff s b) | exact (decode_prefix_agrees s b)]. Qed.
+Print Assumptions C37_key_decode_prefix_agrees.
 
 (* The pinned tree's Decrypt (no length check before data[:12]) crashes on a short input; it
    agrees with the repaired one on every input of at least 12 bytes. *)
@@ -122,3 +185,24 @@ Example C37_nonvacuous :
   | _ => False
   end.
 Proof. vm_compute. repeat split; reflexivity. Qed.
+
+(* the key lengths of the three schemes are the Go constants (regenerated into Gen.v on every
+   run); keys of every scheme exist; the secp256k1 scalars 1 and n-1 are keys, 0, n and 2^256-1
+   are not: the repaired decoder answers an error, the unchecked one crashed *)
+Example C37_key_lengths : (ed_len, sr_len, secp_len) = (64, 32, 32)%nat.
+Proof. reflexivity. Qed.
+Example C37_valid_keys_exist :
+  valid_key Ed25519 (zeros 64) = true /\ valid_key Sr25519 (zeros 32) = true /\
+  valid_key Secp256k1 (be_bytes 32 1) = true /\ valid_key Secp256k1 (be_bytes 32 (secp_n - 1)) = true /\
+  valid_key Secp256k1 (zeros 32) = false /\ valid_key Secp256k1 (be_bytes 32 secp_n) = false /\
+  valid_key Secp256k1 (be_bytes 32 (2 ^ 256 - 1)) = false /\ valid_key Ed25519 (zeros 32) = false.
+Proof. vm_compute. repeat split; reflexivity. Qed.
+Example C37_invalid_scalar_outcomes :
+  decode_private_key Secp256k1 (be_bytes 32 secp_n) = Err 4 /\
+  decode_private_key_prefix Secp256k1 (be_bytes 32 secp_n) = Panic /\
+  decode_private_key Secp256k1 (zeros 32) = Err 4 /\
+  decode_private_key_prefix Secp256k1 (zeros 32) = Panic.
+Proof. vm_compute. repeat split; reflexivity. Qed.
+(* secp_n is the order of the secp256k1 group (SEC 2): 2^256 - 432420386565659656852420866394968145599 *)
+Example C37_secp_n : secp_n = 2 ^ 256 - 432420386565659656852420866394968145599.
+Proof. reflexivity. Qed.
